@@ -244,6 +244,10 @@ func (s *treeScript) action(allowCreate bool) {
 		s.log()
 		return
 	}
+	if chance(t, 6, "preact") {
+		s.precompileCall()
+		return
+	}
 	switch {
 	case r < 5:
 		s.sstore()
@@ -262,6 +266,23 @@ func (s *treeScript) action(allowCreate bool) {
 	default:
 		s.sstore()
 	}
+}
+
+// precompileCall: a CALL that carries value to a standard precompile and mostly
+// FAILS there (too little gas for its price, input it rejects): a failed frame like any
+// other, whose value transfer and account creation have to be undone.
+func (s *treeScript) precompileCall() {
+	t := s.t()
+	p := uint64(pickInt(t, "prep", 1, 2, 4, 6, 8, 9, 3, 5))
+	v := uint64(pickInt(t, "prev", 1, 7, 0))
+	n := pickInt(t, "prein", 0, 1, 64, 65, 100, 213)
+	if n > 0 {
+		s.a.Push(genWord(t, "prew")).Push(0x280).Op(MSTORE)
+	}
+	gas := uint64(pickInt(t, "pregas", 0, 0, 100, 100000))
+	s.a.Push(0x20).Push(0x2c0).Push(n).Push(0x280).Push(v).Push(p).Push(gas).Op(CALL)
+	s.ncall++
+	s.a.Push(uint64(0x40 + s.ncall)).Op(SSTORE)
 }
 
 func (s *treeScript) ending() {
@@ -391,6 +412,10 @@ func GenTreeScenario(t *rapid.T, cfg TreeCfg) *Scenario {
 			}
 		}
 		sc.Invs = append(sc.Invs, inv)
+	}
+	// a host may re-target one EVM with Reset between messages
+	for i := 1; i < len(sc.Invs); i++ {
+		sc.Invs[i].Reset = chance(t, 30, "reset")
 	}
 	return sc
 }
